@@ -33,6 +33,7 @@ class RangeHandler(http.server.BaseHTTPRequestHandler):
     protocol_version = "HTTP/1.1"
     data = {}
     log = []
+    plans = {}
 
     def log_message(self, *a):
         pass
@@ -50,14 +51,32 @@ class RangeHandler(http.server.BaseHTTPRequestHandler):
             a = int(a)
             b = int(b) if b else len(body) - 1
             part = body[a:b + 1]
-            RangeHandler.log.append((self.path, a, b))
+            plan = RangeHandler.plans.get(self.path)
+            if plan and a >= plan["hdr"] and plan["i"] < len(plan["cuts"]) and len(part) > 1:
+                # transfer failure: announce the whole range, deliver k bytes, cut the connection
+                k = min(plan["cuts"][plan["i"]], len(part) - 1)
+                plan["i"] += 1
+                RangeHandler.log.append((self.path, a, b, k))
+                self.send_response(206)
+                self.send_header("Content-Length", str(len(part)))
+                self.send_header("Connection", "close")
+                self.end_headers()
+                self.wfile.write(part[:k])
+                self.wfile.flush()
+                try:
+                    self.connection.shutdown(2)
+                except OSError:
+                    pass
+                self.close_connection = True
+                return
+            RangeHandler.log.append((self.path, a, b, -1))
             self.send_response(206)
             self.send_header("Content-Length", str(len(part)))
             self.send_header("Content-Range", "bytes %d-%d/%d" % (a, b, len(body)))
             self.end_headers()
             self.wfile.write(part)
         else:
-            RangeHandler.log.append((self.path, -1, -1))
+            RangeHandler.log.append((self.path, -1, -1, -1))
             self.send_response(200)
             self.send_header("Content-Length", str(len(body)))
             self.end_headers()
